@@ -561,6 +561,9 @@ func TestC08(t *testing.T) {
 	restore() // directed scenarios install their own marker handler
 	c08directed(ctx, run, rng.Split("directed"), base, pool)
 	restore = verifhook.Set(c08hook())
+	if vkit.Thorough() {
+		c08forcedClose(ctx, run, rng.Split("forced-close"), base, pool)
+	}
 	run.Require("directed/scenarios", 10)
 	run.Require("reads_verified", 500)
 	run.Require("porcupine/ok", 20)
@@ -728,4 +731,91 @@ func c08directed(ctx context.Context, run *vkit.Run, r *vkit.RNG, base string, p
 		hst.finish(ctx, r.SplitN("dfin", i))
 		_ = os.RemoveAll(dir)
 	}
+}
+
+
+// c08forcedClose exercises the one legitimate way a held accessor is invalidated: a reader holds a
+// cached accessor and then blocks behind the stripe lock of a removal that itself waits for that very
+// reader; after the cache's bounded wait (one minute) the accessor is closed forcibly and everything
+// proceeds. Statement-level oracle: every operation returns, and whatever the reader still reads is
+// either refused with an error or correct - never wrong bytes.
+func c08forcedClose(ctx context.Context, run *vkit.Run, r *vkit.RNG, base string, pool []*vkit.Square) {
+	dir := filepath.Join(base, "forced")
+	_ = os.MkdirAll(dir, 0o755)
+	s, err := store.NewStore(&store.Parameters{RecentBlocksCacheSize: 4}, dir)
+	if err != nil {
+		run.Inconclusive("forced-close: " + err.Error())
+		return
+	}
+	sq, sq2 := pool[0], pool[1]
+	h := uint64(77)
+	h2 := h + 1024 // same height stripe: Put(h2) needs the lock the removal of h holds
+	if err := s.PutODSQ4(ctx, sq.Roots, h, sq.EDS); err != nil {
+		run.Inconclusive("forced-close: " + err.Error())
+		return
+	}
+	acc, err := s.GetByHeight(ctx, h) // recent cache: reference counted
+	if err != nil {
+		run.Inconclusive("forced-close: " + err.Error())
+		return
+	}
+	waiting := make(chan struct{}, 2)
+	restore := verifhook.Set(&verifhook.Handler{Point: func(name string, _ any) {
+		if name == "cache.accessor.close.waiting" {
+			select {
+			case waiting <- struct{}{}:
+			default:
+			}
+		}
+	}})
+	defer restore()
+	done := make(chan struct{})
+	var rmErr, putErr error
+	wrong := 0
+	refused := 0
+	go func() {
+		defer close(done)
+		var wg sync.WaitGroup
+		wg.Add(2)
+		go func() { defer wg.Done(); rmErr = s.RemoveODSQ4(ctx, h, sq.Roots.Hash()) }()
+		go func() {
+			defer wg.Done()
+			<-waiting // the removal holds the locks and waits for our reference
+			putErr = s.PutODSQ4(ctx, sq2.Roots, h2, sq2.EDS)
+			// the accessor was closed under us by now: reads are refused or correct
+			for k := 0; k < 12; k++ {
+				_, prob := c08read(ctx, r, acc, sq)
+				switch {
+				case prob == "":
+				case strings.Contains(prob, "error"):
+					refused++
+				default:
+					wrong++
+				}
+			}
+			_ = acc.Close()
+		}()
+		wg.Wait()
+	}()
+	// the bounded wait is a real one-minute timer inside a select: the stability window must exceed it
+	v, dump := vkit.WaitStable(done, vkit.StableOpts{Polls: 200, Every: 400 * time.Millisecond, MaxWait: 4 * time.Minute})
+	run.Count("forced_close/scenarios", 1)
+	switch v {
+	case "hang":
+		run.Violation("C08 store operations never return (reader blocked behind a removal that waits for it): "+strings.Join(vkit.RepoFrames(dump), " | "), map[string]any{"dump": tailStr(dump, 5000)})
+		return
+	case "inconclusive":
+		run.Inconclusive("forced-close scenario did not finish")
+		return
+	}
+	run.Count("forced_close/reads_refused", refused)
+	if wrong > 0 {
+		run.Violation("C08 accessor closed forcibly serves wrong bytes", map[string]any{"wrong_reads": wrong})
+	}
+	if rmErr != nil || putErr != nil {
+		run.Violation("C08 operation fails after the forced close", map[string]any{"remove": fmt.Sprint(rmErr), "put": fmt.Sprint(putErr)})
+	}
+	_ = s.RemoveODSQ4(ctx, h2, sq2.Roots.Hash())
+	_ = s.Stop(ctx)
+	_ = os.RemoveAll(dir)
 }
